@@ -207,7 +207,7 @@ pub const PROP: Prop = Prop {
     id: "C09",
     level: "exploration",
     runs_quick: 300_000,
-    runs_thorough: 6_000_000,
+    runs_thorough: 2_000_000,
     generate,
     execute,
     shrink,
